@@ -1,10 +1,10 @@
 package rules
 
 import (
-	"sort"
 	"go/constant"
 	"go/token"
 	"go/types"
+	"sort"
 	"strings"
 
 	"golang.org/x/tools/go/ssa"
@@ -334,10 +334,10 @@ func c12SkipLoops(c *Ctx, p *core.Prog) {
 	}
 	nLoops, nSkip, nAdv := 0, 0, 0
 	const (
-		stE     = 1 // the current token has been examined by a positive test since the cursor last moved
-		stU     = 2 // it has not
-		stNoEOF = 4 // on some path it has not been compared with EOF since the cursor last moved
-		stNoSem = 8 // … nor with the semicolon
+		stE     = 1  // the current token has been examined by a positive test since the cursor last moved
+		stU     = 2  // it has not
+		stNoEOF = 4  // on some path it has not been compared with EOF since the cursor last moved
+		stNoSem = 8  // … nor with the semicolon
 		stNoPk  = 16 // on some path the token after the current one has not been positively examined through peekToken()
 	)
 	isCursorLoad := func(v ssa.Value) bool {
@@ -371,212 +371,233 @@ func c12SkipLoops(c *Ctx, p *core.Prog) {
 		}
 		return mayAdvance[f]
 	}
-	for _, fn := range p.SrcFuncs("pkg/sql/parser") {
-		if len(fn.Blocks) == 0 {
-			continue
-		}
-		sccs := blockSCCs(fn, nil, nil, nil)
-		// forward may-analysis over the whole function. On entry the token counts as examined: callers dispatch on it.
-		lbAll := map[*ssa.BasicBlock]bool{}
-		for _, scc := range sccs {
-			for _, b := range scc {
-				lbAll[b] = true
+	// The state in which a function is entered is the union of the states at its call sites inside the package (three
+	// rounds: callers first); a function nobody in the package calls directly is entered with its token examined (the
+	// statement dispatch looked at it).
+	callStates := map[*ssa.Function]int{}
+	for pass := 0; pass < 3; pass++ {
+		final := pass == 2
+		newCall := map[*ssa.Function]int{}
+		for _, fn := range p.SrcFuncs("pkg/sql/parser") {
+			if len(fn.Blocks) == 0 {
+				continue
 			}
-		}
-		inState := map[*ssa.BasicBlock]int{fn.Blocks[0]: stE | stNoPk}
-		atAdvance := map[ssa.Instruction]int{}
-		atLoad := map[ssa.Value]int{} // state at each load of the cursor (a snapshot the code may compare with later)
-		endState := map[*ssa.BasicBlock]int{}
-		for changed := true; changed; {
-			changed = false
-			for _, b := range fn.Blocks {
-				st := inState[b]
-				if st == 0 {
-					continue
+			sccs := blockSCCs(fn, nil, nil, nil)
+			// forward may-analysis over the whole function. On entry the token counts as examined: callers dispatch on it.
+			lbAll := map[*ssa.BasicBlock]bool{}
+			for _, scc := range sccs {
+				for _, b := range scc {
+					lbAll[b] = true
 				}
-				for _, in := range b.Instrs {
-					if isAdvance(in) {
-						atAdvance[in] |= st
+			}
+			entry := stE | stNoPk
+			if cs, ok := callStates[fn]; ok && pass > 0 && fn.Parent() == nil {
+				entry = cs
+			}
+			inState := map[*ssa.BasicBlock]int{fn.Blocks[0]: entry}
+			atAdvance := map[ssa.Instruction]int{}
+			atLoad := map[ssa.Value]int{} // state at each load of the cursor (a snapshot the code may compare with later)
+			endState := map[*ssa.BasicBlock]int{}
+			for changed := true; changed; {
+				changed = false
+				for _, b := range fn.Blocks {
+					st := inState[b]
+					if st == 0 {
+						continue
 					}
-					if consumes(in) {
-						if isAdvance(in) && st&stNoPk == 0 {
-							st = stE | stNoPk // the token now current is the one peekToken() showed
-						} else {
-							st = stU | stNoEOF | stNoSem | stNoPk
+					for _, in := range b.Instrs {
+						if isAdvance(in) {
+							atAdvance[in] |= st
+						}
+						if call, ok := in.(*ssa.Call); ok {
+							if cf := call.Call.StaticCallee(); isParserRecv(cf) && cf.Blocks != nil && !purePredicate(cf, 0) && cf.Name() != "advance" {
+								newCall[cf] |= st
+							}
+						}
+						if consumes(in) {
+							if isAdvance(in) && st&stNoPk == 0 {
+								st = stE | stNoPk // the token now current is the one peekToken() showed
+							} else {
+								st = stU | stNoEOF | stNoSem | stNoPk
+							}
+						}
+						if v, ok := in.(ssa.Value); ok && isCursorLoad(v) {
+							if atLoad[v]|st != atLoad[v] {
+								atLoad[v] |= st
+								changed = true
+							}
 						}
 					}
-					if v, ok := in.(ssa.Value); ok && isCursorLoad(v) {
-						if atLoad[v]|st != atLoad[v] {
-							atLoad[v] |= st
+					endState[b] = st
+					var t tokTest
+					snapSucc, snapState := -1, 0
+					// `a && b` used as a value (a case of a tagless switch, a condition kept in a variable) arrives as a phi
+					// that is false on the edge where a failed and b on the edge from the block that evaluated b: on the
+					// true side the run came through that block, so its end state is the one to continue from
+					andBase := 0
+					var condV ssa.Value
+					if len(b.Instrs) > 0 {
+						if iff, ok := b.Instrs[len(b.Instrs)-1].(*ssa.If); ok {
+							condV = iff.Cond
+							if ph, ok := iff.Cond.(*ssa.Phi); ok && ph.Block() == b {
+								var only ssa.Value
+								var from *ssa.BasicBlock
+								simple := true
+								for i, e := range ph.Edges {
+									if cst, ok := e.(*ssa.Const); ok && cst.Value != nil && cst.Value.String() == "false" {
+										continue
+									}
+									if only != nil {
+										simple = false
+									}
+									only, from = e, b.Preds[i]
+								}
+								if simple && only != nil && endState[from] != 0 {
+									condV = only
+									andBase = endState[from]
+								}
+							}
+							t = classify(condV)
+							// progress guard `p.currentPos == saved`: on the equal side the cursor is where it was when
+							// saved was loaded, so what was known about the token then is known again
+							if bo, ok := iff.Cond.(*ssa.BinOp); ok && (bo.Op == token.EQL || bo.Op == token.NEQ) && isCursorLoad(bo.X) && isCursorLoad(bo.Y) && bo.X != bo.Y {
+								old := bo.Y
+								if bo.X.(*ssa.UnOp).Block() != b || bo.Y.(*ssa.UnOp).Block() == b && bo.Y.Pos() > bo.X.Pos() {
+									old = bo.X
+								}
+								if atLoad[old] != 0 {
+									snapState = atLoad[old]
+									snapSucc = 0
+									if bo.Op == token.NEQ {
+										snapSucc = 1
+									}
+								}
+							}
+						}
+					}
+					pkTest, pkSucc := false, 0
+					if len(b.Instrs) > 0 {
+						if iff, ok := b.Instrs[len(b.Instrs)-1].(*ssa.If); ok {
+							_ = iff
+							pkTest, pkSucc = peekTest(condV)
+						}
+					}
+					for k, sc := range b.Succs {
+						out := st
+						if andBase != 0 && k == 0 {
+							out = andBase
+						}
+						if pkTest && k == pkSucc && (andBase == 0 || k == 0) {
+							out &^= stNoPk
+						}
+						if t.isTest && (andBase == 0 || k == 0) {
+							for _, kk := range t.consts {
+								if kk == eof {
+									out &^= stNoEOF
+								}
+								if kk == semi {
+									out &^= stNoSem
+								}
+							}
+							if k == t.posSucc {
+								out = stE | out&stNoPk
+							}
+						}
+						if k == snapSucc {
+							out = snapState
+						}
+						if inState[sc]|out != inState[sc] {
+							inState[sc] |= out
 							changed = true
 						}
 					}
 				}
-				endState[b] = st
-				var t tokTest
-				snapSucc, snapState := -1, 0
-				// `a && b` used as a value (a case of a tagless switch, a condition kept in a variable) arrives as a phi
-				// that is false on the edge where a failed and b on the edge from the block that evaluated b: on the
-				// true side the run came through that block, so its end state is the one to continue from
-				andBase := 0
-				var condV ssa.Value
-				if len(b.Instrs) > 0 {
-					if iff, ok := b.Instrs[len(b.Instrs)-1].(*ssa.If); ok {
-						condV = iff.Cond
-						if ph, ok := iff.Cond.(*ssa.Phi); ok && ph.Block() == b {
-							var only ssa.Value
-							var from *ssa.BasicBlock
-							simple := true
-							for i, e := range ph.Edges {
-								if cst, ok := e.(*ssa.Const); ok && cst.Value != nil && cst.Value.String() == "false" {
-									continue
-								}
-								if only != nil {
-									simple = false
-								}
-								only, from = e, b.Preds[i]
-							}
-							if simple && only != nil && endState[from] != 0 {
-								condV = only
-								andBase = endState[from]
-							}
-						}
-						t = classify(condV)
-						// progress guard `p.currentPos == saved`: on the equal side the cursor is where it was when
-						// saved was loaded, so what was known about the token then is known again
-						if bo, ok := iff.Cond.(*ssa.BinOp); ok && (bo.Op == token.EQL || bo.Op == token.NEQ) && isCursorLoad(bo.X) && isCursorLoad(bo.Y) && bo.X != bo.Y {
-							old := bo.Y
-							if bo.X.(*ssa.UnOp).Block() != b || bo.Y.(*ssa.UnOp).Block() == b && bo.Y.Pos() > bo.X.Pos() {
-								old = bo.X
-							}
-							if atLoad[old] != 0 {
-								snapState = atLoad[old]
-								snapSucc = 0
-								if bo.Op == token.NEQ {
-									snapSucc = 1
-								}
-							}
-						}
-					}
-				}
-				pkTest, pkSucc := false, 0
-				if len(b.Instrs) > 0 {
-					if iff, ok := b.Instrs[len(b.Instrs)-1].(*ssa.If); ok {
-						_ = iff
-						pkTest, pkSucc = peekTest(condV)
-					}
-				}
-				for k, sc := range b.Succs {
-					out := st
-					if andBase != 0 && k == 0 {
-						out = andBase
-					}
-					if pkTest && k == pkSucc && (andBase == 0 || k == 0) {
-						out &^= stNoPk
-					}
-					if t.isTest && (andBase == 0 || k == 0) {
-						for _, kk := range t.consts {
-							if kk == eof {
-								out &^= stNoEOF
-							}
-							if kk == semi {
-								out &^= stNoSem
-							}
-						}
-						if k == t.posSucc {
-							out = stE | out&stNoPk
-						}
-					}
-					if k == snapSucc {
-						out = snapState
-					}
-					if inState[sc]|out != inState[sc] {
-						inState[sc] |= out
-						changed = true
-					}
-				}
 			}
-		}
-		{
-			var ks []ssa.Instruction
-			for in := range atAdvance {
-				ks = append(ks, in)
-			}
-			sort.Slice(ks, func(i, j int) bool { return ks[i].Pos() < ks[j].Pos() })
-			nb := 0
-			for _, in := range ks {
-				nAdv++
-				if atAdvance[in]&stU != 0 && atAdvance[in]&(stNoEOF|stNoSem) != 0 && !lbAll[in.Block()] {
-					nb++
-					r.Violate("consume-examined", core.FnName(fn)+sprintf("|blind#%d", nb), p.Pos(in.Pos()), "this advance() consumes a token that, on some path, nobody has looked at since the cursor last moved (no positive test of it, no peekToken() test before the previous advance, no comparison with EOF and `;`): when the statement is cut off here the token is its terminator, which recovery then cannot find")
-				}
-			}
-			if nb == 0 && len(ks) > 0 {
-				r.OK("consume-examined", core.FnName(fn), p.FnPos(fn), sprintf("%d advance() calls, each on an examined token", len(ks)))
-			}
-		}
-		seq := 0
-		for _, scc := range sccs {
-			in := blockSet(scc)
-			hasAdv := false
-			var site, blind ssa.Instruction
-			for _, b := range scc {
-				for _, ins := range b.Instrs {
-					if isAdvance(ins) {
-						hasAdv = true
-						if atAdvance[ins]&stU != 0 && (site == nil || ins.Pos() < site.Pos()) {
-							site = ins
-						}
-						if atAdvance[ins]&stU != 0 && atAdvance[ins]&(stNoEOF|stNoSem) != 0 && (blind == nil || ins.Pos() < blind.Pos()) {
-							blind = ins
-						}
-					}
-				}
-			}
-			if !hasAdv {
+			if !final {
 				continue
 			}
-			nLoops++
-			if site == nil {
-				continue
-			}
-			nSkip++
-			seq++
-			tested := map[int64]bool{}
-			for _, b := range scc {
-				if iff, ok := b.Instrs[len(b.Instrs)-1].(*ssa.If); ok {
-					for _, k := range classify(iff.Cond).consts {
-						tested[k] = true
+			{
+				var ks []ssa.Instruction
+				for in := range atAdvance {
+					ks = append(ks, in)
+				}
+				sort.Slice(ks, func(i, j int) bool { return ks[i].Pos() < ks[j].Pos() })
+				nb := 0
+				for _, in := range ks {
+					nAdv++
+					if atAdvance[in]&stU != 0 && atAdvance[in]&(stNoEOF|stNoSem) != 0 && !lbAll[in.Block()] {
+						nb++
+						r.Violate("consume-examined", core.FnName(fn)+sprintf("|blind#%d", nb), p.Pos(in.Pos()), "this advance() consumes a token that, on some path, nobody has looked at since the cursor last moved (no positive test of it, no peekToken() test before the previous advance, no comparison with EOF and `;`): when the statement is cut off here the token is its terminator, which recovery then cannot find")
 					}
 				}
-			}
-			_ = in
-			key := core.FnName(fn) + sprintf("|skip#%d", seq)
-			var miss []string
-			if !tested[eof] {
-				miss = append(miss, "TokenTypeEOF")
-			}
-			if !tested[semi] {
-				miss = append(miss, "TokenTypeSemicolon")
-			}
-			if len(miss) == 0 && blind != nil {
-				what := ""
-				if atAdvance[blind]&stNoEOF != 0 {
-					what = "EOF"
+				if nb == 0 && len(ks) > 0 {
+					r.OK("consume-examined", core.FnName(fn), p.FnPos(fn), sprintf("%d advance() calls, each on an examined token", len(ks)))
 				}
-				if atAdvance[blind]&stNoSem != 0 {
-					if what != "" {
-						what += " or "
+			}
+			seq := 0
+			for _, scc := range sccs {
+				in := blockSet(scc)
+				hasAdv := false
+				var site, blind ssa.Instruction
+				for _, b := range scc {
+					for _, ins := range b.Instrs {
+						if isAdvance(ins) {
+							hasAdv = true
+							if atAdvance[ins]&stU != 0 && (site == nil || ins.Pos() < site.Pos()) {
+								site = ins
+							}
+							if atAdvance[ins]&stU != 0 && atAdvance[ins]&(stNoEOF|stNoSem) != 0 && (blind == nil || ins.Pos() < blind.Pos()) {
+								blind = ins
+							}
+						}
 					}
-					what += "the semicolon"
 				}
-				r.Violate("skip-loop-terminator", key, p.Pos(blind.Pos()), "this advance() consumes a token that, on some path, has not been compared with "+what+" since the cursor last moved (the loop tests for them elsewhere, but not between the move and this advance): recovery can swallow a statement's `;` and with it the statement that follows")
-			} else if len(miss) == 0 {
-				r.OK("skip-loop-terminator", key, p.Pos(site.Pos()), "the skip loop tests for end of input and semicolon")
-			} else {
-				r.Violate("skip-loop-terminator", key, p.Pos(site.Pos()), "this loop consumes any token (advance() on a token that no positive test has examined since the cursor last moved) and never tests for "+strings.Join(miss, " / ")+": a statement cut off here swallows the `;` and the statements after it, which recovery then cannot return")
+				if !hasAdv {
+					continue
+				}
+				nLoops++
+				if site == nil {
+					continue
+				}
+				nSkip++
+				seq++
+				tested := map[int64]bool{}
+				for _, b := range scc {
+					if iff, ok := b.Instrs[len(b.Instrs)-1].(*ssa.If); ok {
+						for _, k := range classify(iff.Cond).consts {
+							tested[k] = true
+						}
+					}
+				}
+				_ = in
+				key := core.FnName(fn) + sprintf("|skip#%d", seq)
+				var miss []string
+				if !tested[eof] {
+					miss = append(miss, "TokenTypeEOF")
+				}
+				if !tested[semi] {
+					miss = append(miss, "TokenTypeSemicolon")
+				}
+				if len(miss) == 0 && blind != nil {
+					what := ""
+					if atAdvance[blind]&stNoEOF != 0 {
+						what = "EOF"
+					}
+					if atAdvance[blind]&stNoSem != 0 {
+						if what != "" {
+							what += " or "
+						}
+						what += "the semicolon"
+					}
+					r.Violate("skip-loop-terminator", key, p.Pos(blind.Pos()), "this advance() consumes a token that, on some path, has not been compared with "+what+" since the cursor last moved (the loop tests for them elsewhere, but not between the move and this advance): recovery can swallow a statement's `;` and with it the statement that follows")
+				} else if len(miss) == 0 {
+					r.OK("skip-loop-terminator", key, p.Pos(site.Pos()), "the skip loop tests for end of input and semicolon")
+				} else {
+					r.Violate("skip-loop-terminator", key, p.Pos(site.Pos()), "this loop consumes any token (advance() on a token that no positive test has examined since the cursor last moved) and never tests for "+strings.Join(miss, " / ")+": a statement cut off here swallows the `;` and the statements after it, which recovery then cannot return")
+				}
 			}
 		}
+		callStates = newCall
 	}
 	r.Extra("parser_loops_with_advance", nLoops)
 	r.Extra("skip_loops", nSkip)
